@@ -32,6 +32,11 @@ TracePaths == UNION {Rng(Traces[t].paths) : t \in DOMAIN Traces}
 TraceActs == {"Checkout", "Switch", "Modify", "Chmod", "Delete", "Create", "Retype", "FileToDir", "DirToFile",
               "Stage", "StageAll", "Unstage", "RmCached", "Commit", "ResetMixed", "ResetHard"}
 
+\* constants of WorkTreeStatus that the trace dispatch does not use
+NoTrees == {}
+NoCells == {}
+NoContents == {}
+
 VARIABLES tid, l, obs, verdict, failAt, driftAt
 tvars == <<vars, tid, l, obs, verdict, failAt, driftAt>>
 
